@@ -104,6 +104,7 @@ Definition agree (c : case) : bool :=
 Definition wf_case (c : case) : bool :=
   wf_world (lw (w c))
   && Nat.eqb (length (lsp (w c))) (nlayers (lw (w c)))
+  && forallb (fun t => Nat.leb 1 (t_count t)) (tests (w c))
   && forallb (fun t => Nat.ltb (t_layer t) (nlayers (lw (w c)))) (tests (w c)).
 
 Definition check_corr (c : case) : nat := bit (negb (agree c)) 1 + bit (negb (wf_case c)) 4.
